@@ -84,6 +84,27 @@ def check_case(prog, env, pid, want_schedules=True, forms=None):
                 if r.canon() != c0:
                     viols.append(('schedule-dependent', f'same inputs, different outcome: {_brief(members[0][0])} vs {_brief(r)}', sd))
             cnt['reorderings'] += len(orders) - 1
+    if pid == 'C01' and r0.exc is None:
+        # histories on one store: solve; delete one supplied input from the SAME store object; solve again (no prompt).
+        # The second solve must be the fixed point of the reduced inputs (nothing remembered from the first).
+        for name in sorted(r0.final_inputs):
+            st = r0.store
+            saved = st.config.get(*name.split('.'))
+            try:
+                del st[name]
+            except Exception:
+                continue
+            rd = world.run_solve(forms, ['a'], None, answer=None, schedule=world.Schedule('natural'), store=st)
+            cnt['executions'] += 1
+            refd = refeval.Ref(forms, ['a'], rd.final_inputs).run()
+            for kind, msg in refeval.compare(rd, refd):
+                viols.append(('after-delete:' + kind, f'solve, delete {name} from the same store, solve again: {msg}', None))
+            if name in rd.final_inputs:
+                viols.append(('delete-ignored', f'{name} still supplied after deletion', None))
+            sec, key = name.split('.')
+            if not st.config.has_section(sec):
+                st.config.add_section(sec)
+            st.config.set(sec, key, saved)
     if pid == 'C13' and r0.exc is None and not r0.refused:
         # write back -> second run asks nothing and reproduces the solution
         env2 = dict(file=dict(r0.final_inputs), answers={})
